@@ -193,6 +193,7 @@ Proof.
   unfold enc_entry.
   destruct (Nat.eqb_spec bits 1) as [E1|E1].
   - rewrite E1 in Hl. destruct syms as [|v [|v2 r]]; try discriminate. rewrite wns_single' in *.
+    destruct (15 <? v); [discriminate|].
     inversion H; subst se'; clear H. cbn [se_data se_prev se_max se_tpe hd].
     apply Forall_cons_iff in H8 as [H8 _]. apply Forall_cons_iff in Hs as [Hs _].
     exists (from_value v). rewrite wns_single'. cbn [hd].
@@ -212,6 +213,9 @@ Proof.
     { destruct (states_eqb m st) eqn:E.
       - unfold states_eqb in E. apply N.eqb_eq in E. assert (m = st) by (destruct m, st; cbn in E; congruence). congruence.
       - rewrite <- Hl. now apply compress_template_spec. }
-    rewrite Hpacked in H. cbn [bind] in H. inversion H; subst se'; clear H.
+    rewrite Hpacked in H. cbn [bind] in H.
+    destruct (write_n_state_loop m syms 0 None) as [|b0 pr] eqn:Epk; [discriminate|].
+    destruct ((0 <? _) && (_ <=? b0)); [discriminate|].
+    inversion H; subst se'; clear H. rewrite <- Epk.
     cbn [se_data se_prev se_max se_tpe]. exists m. repeat split; auto. intros E; congruence.
 Qed.
